@@ -39,6 +39,12 @@ class WorkerTmp:
             os.close(fd)
             raise
 
+        # The file is created with a wall-clock mtime, which is not
+        # comparable with the monotonic clock notify() writes and the
+        # arbiter reads: start the inactivity clock now, so that a worker
+        # that hangs before its first notify() (while it boots) times out.
+        self.notify()
+
     def notify(self):
         new_time = time.monotonic()
         os.utime(self._tmp.fileno(), (new_time, new_time))
